@@ -283,4 +283,25 @@ def faceConforming (g : Grid) (k : List Nat) : Bool :=
 def conformingAt (g : Grid) (vs : List Nat) : Bool :=
   ((mixedTriFaces g).filter fun k => k.any vs.contains).all (faceConforming g)
 
+/-! ## 2-D grids: triangles are the cells, `edg` the boundary, quadrilaterals the frozen cells -/
+
+/-- the sides of the quadrilaterals (vertex pairs, from the generated `e2n` table) -/
+def quaSides (g : Grid) : List (List Nat) := g.qua.flatMap fun c => e2nQua.map fun p => [c.nd p.1, c.nd p.2]
+
+/-- the side `k` of a quadrilateral is a side of a triangle or a boundary edge -/
+def matched2 (g : Grid) (k : List Nat) : Bool := g.tri.any (covers · k) || g.edg.any (covers · k)
+
+/-- no hanging node on a quadrilateral side -/
+def interfaceMatched2 (g : Grid) : Bool := (quaSides g).all (matched2 g)
+
+/-- C01 at a side `k` of a quadrilateral of a 2-D grid: two cells (quads with that side + triangles on it) and no
+    boundary edge, or one cell and exactly one boundary edge -/
+def sideConforming (g : Grid) (k : List Nat) : Bool :=
+  let ncell := (g.tri.filter (covers · k)).length + ((quaSides g).filter (sameSet k)).length
+  let nedg := (g.edg.filter (covers · k)).length
+  (ncell == 2 && nedg == 0) || (ncell == 1 && nedg == 1)
+
+def conformingAt2 (g : Grid) (vs : List Nat) : Bool :=
+  ((quaSides g).filter fun k => k.any vs.contains).all (sideConforming g)
+
 end Refine.Model.Mixed
